@@ -235,7 +235,7 @@ impl BufCheck {
         }
 
         for opi in 0..nops {
-            let op = src.weighted(&[30, 25, 8, 6, 5, 3, 6, 8, 4]);
+            let op = src.weighted(&[30, 25, 8, 6, 5, 3, 6, 8, 4, 8, 8]);
             let used = model.len();
             let free = cap - used;
             let (rpos, _wpos, _u) = ring.positions();
@@ -476,6 +476,129 @@ impl BufCheck {
                         ctx.count("scribble_while_reading");
                     }
                 }
+                // write window held open across a read + consume, then committed
+                9 => {
+                    let mut w = ring.write_buf().map_err(|e| Violation::new(format!("{prop}:write_buf-err"), e))?;
+                    if w.len() != free {
+                        viol!("C01", "write-window-size", "op {opi}: write window has {} samples, model says free={} (cap {cap}, used {used})", w.len(), free);
+                    }
+                    let k = match src.below(4) {
+                        0 => free,
+                        1 => free.min(1),
+                        2 => src.below(free.min(16) + 1),
+                        _ => src.below(free + 1),
+                    };
+                    let n = if src.chance(1, 3) { src.below(k + 1) } else { k };
+                    let first = counter;
+                    for (i, p) in w.slice().iter_mut().take(k).enumerate() {
+                        *p = T::from_counter(first + i as u64);
+                    }
+                    counter += k as u64;
+                    // Reader side, while the write window is still open.
+                    let (r, rtags) = ring.read_buf().map_err(|e| Violation::new(format!("{prop}:read_buf-err"), e))?;
+                    verify_read::<T>(prop, opi, &r, &rtags, &model, &mut data_ok)?;
+                    if !data_ok {
+                        return Ok(());
+                    }
+                    let m = match src.below(4) {
+                        0 | 1 => used,
+                        2 => used.saturating_sub(1),
+                        _ => src.below(used + 1),
+                    };
+                    if let Err(p) = catch(|| r.consume(m)) {
+                        viol!("C01", "valid-consume-refused", "op {opi}: consume({m}) with {used} readable (write window open) panicked: {}", p.msg);
+                    }
+                    for _ in 0..m {
+                        model.pop_front();
+                    }
+                    ctx.count("consume_while_write_window_open");
+                    if m == used && used > 0 {
+                        ctx.count("drain_while_write_window_open");
+                    }
+                    let mut tags: Vec<Tag> = Vec::new();
+                    let mut per: Vec<Vec<MTag>> = vec![Vec::new(); n];
+                    if n > 0 && kn.tag_heavy && src.coin() {
+                        let pos = if src.coin() { 0 } else { n - 1 };
+                        let (k, v) = gen_tag(src, &mut serial);
+                        tags.push(Tag::new(pos, k.clone(), v.clone()));
+                        per[pos].push((k, v));
+                    }
+                    if let Err(p) = catch(|| w.produce(n, &tags)) {
+                        viol!("C01", "valid-commit-refused", "op {opi}: produce({n}) within a {free}-sample window (after a consume of {m}) panicked: {}", p.msg);
+                    }
+                    for (i, t) in per.into_iter().enumerate() {
+                        model.push_back((T::from_counter(first + i as u64), t));
+                    }
+                    if sample_ops.len() < 12 {
+                        sample_ops.push(format!("hold-write {k}: consume {m}, commit {n}"));
+                    }
+                }
+                // read window held open across a write + commit, then consumed
+                10 => {
+                    let (r, rtags) = ring.read_buf().map_err(|e| Violation::new(format!("{prop}:read_buf-err"), e))?;
+                    verify_read::<T>(prop, opi, &r, &rtags, &model, &mut data_ok)?;
+                    if !data_ok {
+                        return Ok(());
+                    }
+                    let mut w = ring.write_buf().map_err(|e| Violation::new(format!("{prop}:write_buf-err"), e))?;
+                    if w.len() != free {
+                        viol!("C01", "write-window-size", "op {opi}: write window has {} samples, model says free={} (cap {cap}, used {used})", w.len(), free);
+                    }
+                    let n = match src.below(4) {
+                        0 => free,
+                        1 => free.min(1),
+                        2 => src.below(free.min(16) + 1),
+                        _ => src.below(free + 1),
+                    };
+                    let first = counter;
+                    for (i, p) in w.slice().iter_mut().take(n).enumerate() {
+                        *p = T::from_counter(first + i as u64);
+                    }
+                    counter += n as u64;
+                    let mut tags: Vec<Tag> = Vec::new();
+                    let mut per: Vec<Vec<MTag>> = vec![Vec::new(); n];
+                    if n > 0 && kn.tag_heavy && src.coin() {
+                        let pos = if src.coin() { 0 } else { n - 1 };
+                        let (k, v) = gen_tag(src, &mut serial);
+                        tags.push(Tag::new(pos, k.clone(), v.clone()));
+                        per[pos].push((k, v));
+                    }
+                    if let Err(p) = catch(|| w.produce(n, &tags)) {
+                        viol!("C01", "valid-commit-refused", "op {opi}: produce({n}) within a {free}-sample window (read window open) panicked: {}", p.msg);
+                    }
+                    // The old read window still shows exactly what it showed.
+                    {
+                        let sl = r.slice();
+                        if sl.len() != used {
+                            viol!("C01", "read-window-size", "op {opi}: held read window changed length {} -> {}", used, sl.len());
+                        }
+                        if check_data_prop(prop) {
+                            for (i, (v, _)) in model.iter().enumerate() {
+                                if sl[i] != *v {
+                                    viol!("C01", "data-mismatch", "op {opi}: held read window sample {i} changed to {:?} after a commit of {n}; committed {:?} ({})", sl[i], v, T::NAME);
+                                }
+                            }
+                        }
+                    }
+                    let m = match src.below(4) {
+                        0 | 1 => used,
+                        2 => used.min(1),
+                        _ => src.below(used + 1),
+                    };
+                    if let Err(p) = catch(|| r.consume(m)) {
+                        viol!("C01", "valid-consume-refused", "op {opi}: consume({m}) from a held window of {used} panicked: {}", p.msg);
+                    }
+                    for _ in 0..m {
+                        model.pop_front();
+                    }
+                    for (i, t) in per.into_iter().enumerate() {
+                        model.push_back((T::from_counter(first + i as u64), t));
+                    }
+                    ctx.count("commit_while_read_window_open");
+                    if sample_ops.len() < 12 {
+                        sample_ops.push(format!("hold-read {used}: commit {n}, consume {m}"));
+                    }
+                }
                 // full-capacity commit then full consume
                 _ => {
                     if used == 0 {
@@ -522,6 +645,10 @@ impl BufCheck {
         }
         Ok(())
     }
+}
+
+fn check_data_prop(prop: &str) -> bool {
+    prop == "C01"
 }
 
 fn ntags_many(per: &[Vec<MTag>]) -> bool {
@@ -608,7 +735,7 @@ impl Check for BufCheck {
     }
     fn rule(&self) -> String {
         "one run = one seeded operation history (1..60 ops: write k/commit n<=k with tags, read+verify+consume m, \
-         consume(0), dropped windows, both windows live, queries, refused oversize commit/consume, full-capacity commit) \
+         consume(0), dropped windows, both windows live, a write window held open across a read+consume and a read window held open across a write+commit, queries, refused oversize commit/consume, full-capacity commit) \
          on a real mmap-backed Buffer<T> or new_stream() pair with seeded element type (u8,u16,u32,u64,f32,Complex,[u8;16],[u8;3],[u8;5],[u8;12]), \
          size (1,2,3,8 pages and non page multiples) and start offset; checked after every op against a deque model. \
          non-trivial = at least one op executed against a successfully created buffer or a refused construction; \
@@ -632,7 +759,7 @@ impl Check for BufCheck {
     }
     fn required(&self, _tier: Tier) -> Vec<&'static str> {
         if self.prop == "C01" {
-            vec!["commit_across_wrap", "full_at_nonzero_offset", "readable_region_spans_wrap", "fault:oversize_commit", "fault:oversize_consume", "bad_size_rejected", "full_capacity_commit", "both_windows_live"]
+            vec!["commit_across_wrap", "full_at_nonzero_offset", "readable_region_spans_wrap", "fault:oversize_commit", "fault:oversize_consume", "bad_size_rejected", "full_capacity_commit", "both_windows_live", "drain_while_write_window_open", "commit_while_read_window_open"]
         } else {
             vec!["tag_on_last_before_wrap", "tag_on_first_after_wrap", "consume_zero_with_tags_buffered", "partial_consume_leaves_tagged_samples", "several_tags_on_one_sample", "commit_across_wrap"]
         }
